@@ -553,19 +553,30 @@ pub fn list_is_empty(bdd: &Rc<Bdd>, builder: &mut SemTypeContext) -> Result<IsEm
         Some(mm) => match &mm.0 {
             MemoEmpty::True => return Ok(IsEmptyStatus::IsEmpty),
             MemoEmpty::False(ev) => return Ok(*ev),
-            MemoEmpty::Undefined => {
+            MemoEmpty::Undefined(depth) => {
                 // we got a loop
+                let depth = *depth;
+                builder.memo_assume_empty(depth);
                 return Ok(IsEmptyStatus::IsEmpty);
             }
         },
-        None => {
-            builder
-                .list_memo
-                .insert((**bdd).clone(), BddMemoEmptyRef(MemoEmpty::Undefined));
-        }
+        None => {}
     }
+    let mark = builder.memo_enter();
+    builder.list_memo.insert(
+        (**bdd).clone(),
+        BddMemoEmptyRef(MemoEmpty::Undefined(mark.0)),
+    );
 
-    let is_empty = bdd_every_result(bdd, &None, &None, list_formula_is_empty, builder)?;
+    let res = bdd_every_result(bdd, &None, &None, list_formula_is_empty, builder);
+    let keep = builder.memo_leave(mark, matches!(res, Ok(IsEmptyStatus::IsEmpty)));
+    let is_empty = match res {
+        Ok(it) if keep => it,
+        other => {
+            builder.list_memo.remove(bdd);
+            return other;
+        }
+    };
     builder
         .list_memo
         .get_mut(bdd)
